@@ -53,7 +53,8 @@ def plan(tier):
     return [("kvs", {"kind": "kvs"}, 120000, 200), ("tables", {"kind": "tables"}, 30000, 100), ("kvs-iofault", {"kind": "kvs", "iofault": 1}, 40000, 200)]
 
 
-KEYPOOL = ["a", "b", "c", "d/e", "d/f", "g/h/i", "g/h/j", "k k", "l.m"]
+# incl. two spellings of one accented word (composed / decomposed) and a case pair: distinct strings are distinct keys
+KEYPOOL = ["a", "b", "c", "d/e", "d/f", "g/h/i", "g/h/j", "k k", "l.m", "café", "café", "Q", "q"]
 ROOT = "/kv"
 
 
@@ -115,6 +116,9 @@ def scenario(ch, cfg):
     nkeys = 1 + ch.draw(4, "nkeys")
     pool = list(KEYPOOL)
     keys = [pool.pop(ch.draw(len(pool), "key")) for _ in range(nkeys)]
+    # adaptive second pass (see the end of this function): names the store touched besides its own value files
+    keys += [k for k in cfg.get("extra_keys", []) if k not in keys]
+    nkeys = len(keys)
     missing_key = pool[0]
     nops = 3 + ch.draw(23, "nops")
     # pre-generate operations
@@ -298,6 +302,24 @@ def scenario(ch, cfg):
            "state_keys": [f"{len(state['store'].cache.file_futures)}|{lim_kind}"] if state["store"] is not None else [],
            "sim_time": w.now, "steps": w.steps, "nontrivial": nontrivial, "sample": sample, "tail": list(w.tail)}
     w.shutdown()
+    # every name under the root that was created / written / renamed / removed and is not the value file of a key of this
+    # run (scratch files, markers, ...) is a legal key name: run once more with those names in the key set, so that a
+    # store that borrows names from the key space meets a key of that name
+    foreign = set()
+    for op in fs.trace:
+        if op[0] in ("creat", "trunc", "write", "rename", "unlink"):
+            for pth in (op[1:3] if op[0] == "rename" else op[1:2]):
+                rel = pth[len(ROOT) + 1:]
+                if rel and rel not in keys:
+                    foreign.add(rel)
+    if foreign and not violations and "extra_keys" not in cfg:
+        second = scenario(ch, dict(cfg, extra_keys=sorted(foreign)[:3]))
+        out["violations"] = second["violations"]
+        out["stats"] = {k: out["stats"].get(k, 0) + v for k, v in second["stats"].items()} | {k: v for k, v in out["stats"].items() if k not in second["stats"]}
+        out["stats"]["probe_second_pass_with_names_the_store_touched"] = out["stats"].get("probe_second_pass_with_names_the_store_touched", 0) + 1
+        out["digest"] = out["digest"] + second["digest"]
+        out["sample"] = dict(second["sample"], first_pass_keys=keys, names_touched=sorted(foreign))
+        out["tail"] = second["tail"]
     return out
 
 
@@ -362,14 +384,29 @@ def scenario_tables(ch, cfg):
         if ch.draw(5, "nob") == 0:
             del cols["b"]
             stats["probe_table_missing_column"] += 1
-        if indexed and ch.draw(2, "klongtable"):
-            t = Table(pd.DataFrame(cols))
-            t.set_index(["a"])          # what .index(t;["a"]) does
-            klong._context[KGSym("T")] = t
-        else:
-            df = pd.DataFrame(cols, index=idx if indexed else None)
-            klong._context[KGSym("T")] = Table(df)
-        return table_rows(klong._context[KGSym("T")])
+        klongtable = bool(indexed and ch.draw(2, "klongtable"))
+
+        def make():
+            if klongtable:
+                t = Table(pd.DataFrame(cols))
+                t.set_index(["a"])          # what .index(t;["a"]) does
+                return t
+            return Table(pd.DataFrame(cols, index=idx if indexed else None))
+        t = make()
+        twin_t = make()
+        if (klongtable or not indexed) and ch.draw(4, "pending") == 0:
+            # a row added with .insert that is still pending in the table's buffer when the table is stored (the flow of
+            # the .tables() documentation: .insert(prices;d) then ts,"tables/prices",prices)
+            import numpy as np
+            new_a = (max(idx) + 1) if indexed else len(idx)
+            v = 100 * (len(log) + 1) + 50
+            row = {"a": new_a, "b": v, "s": f"{v}".ljust(150, "_"), "c": v + 1}
+            arr = np.array([row[c] for c in cols], dtype=object)
+            t.insert(arr)
+            twin_t.insert(arr.copy())
+            stats["probe_table_stored_with_pending_insert"] += 1
+        klong._context[KGSym("T")] = t
+        return table_rows(twin_t)         # (reading the rows commits the buffer: done on the twin, not on the table to be stored)
 
     def _cell(x):
         if isinstance(x, str):
